@@ -302,12 +302,10 @@ def walk (ld : String → Val) (pre : Path) (cut : Nat) (fs : Fields) (sel : Opt
       | .ok () => walk ld pre cut fs sel r
     | .sect cfs =>
       if sel = some k then
-        match v with
-        | .dict skvs =>
-          match walk ld (pre ++ [.key k]) cut cfs (selected cfs skvs) skvs with
-          | .error e => .error e
-          | .ok () => walk ld pre cut fs sel r
-        | _ => walk ld pre cut fs sel r
+        -- the section of the selected subcommand: its keys continue the dotted key, like a group of dotted arguments
+        match chkVal ld (pre ++ [.key k]) cut false (.group false cfs) v with
+        | .error e => .error e
+        | .ok () => walk ld pre cut fs sel r
       else walk ld pre cut fs sel r            -- section of a non-selected subcommand: removed, never validated
     | .none =>
       if leafless v then walk ld pre cut fs sel r   -- a namespace without leaves is invisible
@@ -318,15 +316,10 @@ def chkCls (ld : String → Val) (pre : Path) (cfs : Fields) : KV → R
   | (k, v) :: r =>
     if k = "class_path" then chkCls ld pre cfs r
     else if k = "init_args" then
-      match v with
-      | .dict ia =>
-        match walk ld (pre ++ [.key "init_args"]) (pre.length + 1) cfs (selected cfs ia) ia with
-        | .error e => .error e
-        | .ok () =>
-          match reqFields (pre ++ [.key "init_args"]) (pre.length + 1) ia cfs with
-          | .error e => .error e
-          | .ok () => chkCls ld pre cfs r
-      | _ => .error (.type (pre ++ [.key "init_args"]) pre.length)   -- also `init_args: null`
+      -- `parser.parse_object(init_args)` on the per-class parser: its own `validate`; a non-mapping (also `null`) is refused
+      match chkVal ld (pre ++ [.key "init_args"]) pre.length true (.group true cfs) v with
+      | .error e => .error e
+      | .ok () => chkCls ld pre cfs r
     else if k = "dict_kwargs" then chkCls ld pre cfs r      -- not looked into
     else .error (.unknown (pre ++ [.key k]) pre.length)
 def chkItems (ld : String → Val) (pre : Path) (i : Nat) (it : Node) : List Val → R
@@ -339,9 +332,7 @@ end
 
 /-- `ArgumentParser.validate` as the parse methods apply it to the merged configuration -/
 def validate (ld : String → Val) (fs : Fields) (kvs : KV) : R :=
-  match walk ld [] 0 fs (selected fs kvs) kvs with
-  | .error e => .error e
-  | .ok () => reqFields [] 0 kvs fs
+  chkVal ld [] 0 true (.group false fs) (.dict kvs)
 
 
 /-! ## the action table of a parser (`parser._actions`, `option_strings`, `parser.required_args`)
@@ -546,7 +537,11 @@ def applyItem (ld : String → Val) (t : Table) (key : String) (cfg : KV) : Item
     | none => .error (.unrecognized key)
     | some _ =>
       match v with
-      | .dict gkvs => applyGroup ld t key gkvs cfg
+      | .dict gkvs =>
+        -- `_ActionConfigLoad.__call__`: merged into the namespace held for the group, else it replaces what is there
+        applyGroup ld t key gkvs (match assoc key cfg with
+          | some (.dict _) => cfg
+          | _ => insert key (.dict []) cfg)
       | _ => .error (.type [.key key] 0)
   | .wholeEnv v =>
     match t.whole with
